@@ -365,7 +365,7 @@ def run(ctx):
              "selector=None), x overwrite x selector (None and %s). Replay: thorough - every plain case on bzr->bzr "
              "(BasicTags, re-opened branches) and MemoryTags, every 2-name master case and a seeded half of the 3-name "
              "master cases on bzr->bzr with a bound destination, a seeded quarter of the cases on each of git->git, "
-             "bzr->git, git->bzr, a tenth with annotated git tags; quick - seeded 1/4 of the plain and 15% of the master "
+             "bzr->git, git->bzr, a tenth with annotated git tags; quick - seeded 1/4 of the plain and 15%% of the master "
              "cases on bzr / memory, 1/16 on each git combination. Store/Load: every dictionary x %d hostile name schemes "
              "x revision-id schemes via _set_tag_dict and via set_tag (thorough also on disk), re-opened. Non-trivial = "
              "source not empty and different from a destination (merge) / dictionary not empty (store)"
